@@ -210,6 +210,9 @@ def main():
     for pid in range(nprogs):
         p = Prog(rng, pid)
         root = p.func(0, False)
+        # pt_t is 16 bits wide and holds __LINE__: restart the line count for every program so
+        # that a large collection never exceeds 65535 (the header's documented requirement)
+        bodies.append('#line 1 "pt_prog_%d.inc"' % pid)
         # children are defined before their parents (they were generated after, so reverse)
         for f in reversed(p.funcs):
             bodies.append(f[1])
